@@ -116,6 +116,13 @@ def layout(a, kind, rng=None):
     raise ValueError(kind)
 
 
+def rand_layout(a, rng, p=0.35):
+    """With probability p return the same values in a non-C memory layout (Fortran, strided view, negative stride)."""
+    if a.ndim != 2 or rng.random() >= p:
+        return a
+    return layout(a, str(rng.choice(['F', 'strided', 'neg'])))
+
+
 def coords(H, W, cx=1.0, cy=1.0, x0=0.0, y0=0.0, ydesc=False, xdesc=False):
     ys = y0 + cy * np.arange(H, dtype='float64')
     xs = x0 + cx * np.arange(W, dtype='float64')
@@ -140,7 +147,10 @@ def mk(a, cx=1.0, cy=1.0, x0=0.0, y0=0.0, ydesc=False, xdesc=False, res=None, at
     c = {dims[0]: ys, dims[1]: xs}
     r = xr.DataArray(data, dims=list(dims), coords=c, attrs=at, name=name)
     if extra:
+        # non-dimension coordinates: scalars, a 1-D auxiliary coordinate along y and a 2-D one (curvilinear lon)
         r = r.assign_coords(band=1, spatial_ref=0)
+        if extra == 'aux' or extra is True:
+            r = r.assign_coords(row_id=((dims[0],), np.arange(H) + 100), lon2d=((dims[0], dims[1]), np.add.outer(ys, xs)))
     return r
 
 
